@@ -83,6 +83,20 @@ def build(env, spec):
     W.graph_of = {}
     rt_lo = spec.get("rt_lo", 1)
     tgs = {}
+    # shared work profiles ("models") with batch strategies, for the Clockwork worlds
+    W.models = {}
+    for mname, ms in spec.get("models", {}).items():
+        strats, sparams = [], []
+        for si, s in enumerate(ms["strategies"]):
+            rt = val(env, s.get("rt", "sym"), f"rt_{mname}_{si}", rt_lo, T)
+            res = {rn: val(env, q, f"dem_{mname}_{si}_{rn}", 0, 2 ** 20) for rn, q in s.get("res", {"GPU": 1}).items()}
+            strats.append(ExecutionStrategy(resources=Resources({Resource(name=rn, _id="any"): q for rn, q in res.items()}, _logger=NULL),
+                                            batch_size=s.get("batch", 1), runtime=ET(rt)))
+            sparams.append({"rt": rt, "res": res, "batch": s.get("batch", 1)})
+        lres = {rn: val(env, q, f"load_{mname}_{rn}", 0, 2 ** 20) for rn, q in ms.get("load_res", {"RAM": 1}).items()}
+        load = ExecutionStrategy(resources=Resources({Resource(name=rn, _id="any"): q for rn, q in lres.items()}, _logger=NULL), batch_size=1, runtime=ET(0))
+        prof = WorkProfile(name=mname, execution_strategies=ExecutionStrategies(strats), loading_strategies=ExecutionStrategies([load]))
+        W.models[mname] = {"profile": prof, "strategies": sparams, "strat_objs": strats, "load": load, "load_res": lres}
     for g in spec["graphs"]:
         gname = g["name"]
         rel = val(env, g.get("release", 0), f"rel_{gname}", 0, T)
@@ -100,7 +114,8 @@ def build(env, spec):
             tp = spec.get("tasks", {}).get(tname, {})
             strats = []
             sparams = []
-            for si, s in enumerate(tp.get("strategies", [{"rt": "sym"}])):
+            shared = W.models.get(tp.get("model")) if tp.get("model") else None
+            for si, s in enumerate([] if shared else tp.get("strategies", [{"rt": "sym"}])):
                 rt = val(env, s.get("rt", "sym"), f"rt_{tname}_{si}", rt_lo, s.get("rt_hi", T))
                 res = {}
                 for rn, q in s.get("res", {"CPU": 1}).items():
@@ -109,7 +124,10 @@ def build(env, spec):
                     resources=Resources({Resource(name=rn, _id="any"): q for rn, q in res.items()}, _logger=NULL),
                     batch_size=1, runtime=ET(rt)))
                 sparams.append({"rt": rt, "res": res})
-            prof = WorkProfile(name=tname + "_p", execution_strategies=ExecutionStrategies(strats))
+            if shared:
+                prof, strats, sparams = shared["profile"], shared["strat_objs"], shared["strategies"]
+            else:
+                prof = WorkProfile(name=tname + "_p", execution_strategies=ExecutionStrategies(strats))
             job = Job(name=tname, profile=prof, conditional=tname in cond, terminal=tname in g.get("terminal", []),
                       probability=probs.get(tname, 1.0))
             jobs[tname] = job
@@ -126,7 +144,7 @@ def build(env, spec):
             W.task_params[tname] = {"strategies": sparams, "strat_objs": strats, "release": trel, "deadline": tdl,
                                     "parents": parents[tname], "children": [b for a, b in g["edges"] if a == tname],
                                     "conditional": tname in cond, "terminal": tname in g.get("terminal", []),
-                                    "prob": probs.get(tname, 1.0), "source": is_src}
+                                    "prob": probs.get(tname, 1.0), "source": is_src, "model": tp.get("model")}
         children = {t: [b for a, b in g["edges"] if a == t] for t in g["tasks"]}
         if g.get("via_jobgraph"):
             # instantiate through the real JobGraph._generate_task_graph (resolution of conditionals at submission)
@@ -171,6 +189,18 @@ def build(env, spec):
         pools.append(WorkerPool(name=f"P{pi}", workers=ws, _logger=NULL))
     W.pools = pools
     W.worker_pools = WorkerPools(pools)
+    W.preloaded = {id(wk): set() for (_, wk, _) in W.workers}
+    W.profile_held = {id(wk): {} for (_, wk, _) in W.workers}
+    for key, mnames in spec.get("preload", {}).items():
+        pi, wi = map(int, key.split(":"))
+        wk = [w_ for (p_, w_, _) in W.workers if p_ == pi][wi]
+        for mname in mnames:
+            m = W.models[mname]
+            wk.load_profile(m["profile"], m["load"])
+            wk.step(ET(0), ET(0))  # a zero-length load completes at once: the model is available
+            W.preloaded[id(wk)].add(mname)
+            for rn, q in m["load_res"].items():
+                W.profile_held[id(wk)][rn] = W.profile_held[id(wk)].get(rn, 0) + q
     # policy
     pol = spec.get("policy", "EDF")
     srt = val(env, spec.get("sched_runtime", 0), "sched_rt", 0, T)
@@ -182,13 +212,17 @@ def build(env, spec):
         sch = FIFOScheduler(runtime=ET(srt), enforce_deadlines=enf)
     elif pol == "LSF":
         sch = LSFScheduler(runtime=ET(srt))
+    elif pol == "CLOCKWORK":
+        from schedulers import ClockworkScheduler
+
+        sch = ClockworkScheduler(runtime=ET(srt), goal=spec.get("goal", "clockwork"))
     elif pol == "HAVOC":
         from .havoc import HavocScheduler
 
         sch = HavocScheduler(W, spec.get("havoc", {}), runtime=ET(srt))
     else:
         raise ValueError(pol)
-    if pol != "HAVOC":
+    if pol not in ("HAVOC",):
         # BaseScheduler's default prediction policy is RANDOM: every frontier query then draws from the global
         # generator for each unresolved conditional (a fork per draw). Worlds use ALL unless they ask otherwise.
         from workload import BranchPredictionPolicy
@@ -248,6 +282,7 @@ class Monitor:
         self.end_time = None
         self.last_event_time = 0
         self.sched_invocations = []
+        self.cw_placed, self.cw_cancelled = set(), set()
         self.now = 0
 
     # ---- helpers
@@ -267,8 +302,13 @@ class Monitor:
         return st.resources.get_total_quantity(Resource(name=rn, _id="any"))
 
     def used(self, wid, rn):
-        s = 0
+        s = self.W.profile_held.get(wid, {}).get(rn, 0)
+        seen_batches = set()
         for tn, st in self.ledger[wid].items():
+            if isinstance(st, BatchStrategy):
+                if id(st) in seen_batches:
+                    continue  # a batch holds its resources once
+                seen_batches.add(id(st))
             s = s + self.demand(tn, st, rn)
         return s
 
@@ -282,8 +322,13 @@ class Monitor:
             if at is None:
                 u = self.used(wid, r.name)
             else:
-                u = 0
+                u = self.W.profile_held.get(wid, {}).get(r.name, 0)
+                seen_b = set()
                 for tn, st in self.ledger[wid].items():
+                    if isinstance(st, BatchStrategy):
+                        if id(st) in seen_b:
+                            continue
+                        seen_b.add(id(st))
                     d = self.demand(tn, st, r.name)
                     if self.starts[tn]:
                         over = self.starts[tn][-1] + st.runtime.time <= at
@@ -392,6 +437,49 @@ class Monitor:
                 o_t = [self.tname(x) for x in self.offer(sim, t, EventTime(l1, US), True, False)]
             self.req("C18", "offer-monotone-in-release_taskgraphs", all(x in o_t for x in o_f), f"{o_f} !<= {o_t}")
             raise StopRun()
+
+    def clockwork_oracle(self, sim_time, placements):
+        """C15: what one Clockwork invocation returned, judged against the monitor's ledger."""
+        W = self.W
+        now = sim_time.time
+        groups = {}
+        extra = {}  # worker -> {resource: demand already planned in this invocation}
+        for pl in placements:
+            if pl.placement_type == Placement.PlacementType.CANCEL_TASK:
+                tn = self.tname(pl.task)
+                self.cw_cancelled.add(tn)
+                fast = pl.task.available_execution_strategies.get_fastest_strategy().runtime
+                self.req("C15", "cancel-only-if-hopeless", pl.task.deadline < sim_time + fast, tn)
+                continue
+            if pl.placement_type != Placement.PlacementType.PLACE_TASK or not pl.is_placed():
+                continue
+            groups.setdefault(id(pl.execution_strategy), []).append(pl)
+        for gid, pls in groups.items():
+            st = pls[0].execution_strategy
+            names = [self.tname(p.task) for p in pls]
+            self.req("C15", "batch-strategy-is-a-batch", isinstance(st, BatchStrategy), str(names))
+            self.req("C15", "one-model-per-batch", len({id(p.task.profile) for p in pls}) == 1, str(names))
+            self.req("C15", "batch-is-full", len(pls) == st.batch_size and len(set(names)) == len(names), f"{names} batch_size={st.batch_size}")
+            self.req("C15", "batch-on-one-worker", len({(p.worker_pool_id, p.worker_id) for p in pls}) == 1, str(names))
+            self.req("C15", "placed-now", sand(*[p.placement_time == sim_time for p in pls]), str(names))
+            mname = W.task_params[names[0]]["model"]
+            wk = [w_ for (pi, w_, caps) in W.workers if w_.id == pls[0].worker_id]
+            self.req("C15", "worker-exists", len(wk) == 1, str(names))
+            if len(wk) == 1:
+                wid = id(wk[0])
+                self.req("C15", "model-loaded-on-worker", mname in W.preloaded[wid], f"{names}: model {mname} on {wk[0].name}")
+                pi, _, caps = self.live[wid]
+                for r, q in st.resources.resources:
+                    already = extra.setdefault(wid, {}).get(r.name, 0)
+                    self.req("C15", "worker-can-hold-batch", caps.get(r.name, 0) - self.used(wid, r.name) - already >= q, f"{names} on {wk[0].name}")
+                    extra[wid][r.name] = already + q
+            for p in pls:
+                self.req("C15", "batch-meets-earliest-deadline", sim_time + st.runtime <= p.task.deadline, self.tname(p.task))
+                fast = p.task.available_execution_strategies.get_fastest_strategy().runtime
+                self.req("C15", "hopeless-request-not-placed", snot(p.task.deadline < sim_time + fast), self.tname(p.task))
+            for tn in names:
+                self.req("C15", "request-placed-at-most-once", tn not in self.cw_placed and tn not in self.cw_cancelled, tn)
+                self.cw_placed.add(tn)
 
     def notify_oracle(self, tg, task, released, cancelled):
         """C18: on completion exactly the children whose every parent is complete are released
@@ -635,6 +723,15 @@ def run(env, spec, oracles, after=None):
     mon = Monitor(W, oracles, default_budget(spec))
     W.mon = mon
     MON = mon
+    if "C15" in mon.on:
+        orig_schedule = W.scheduler.schedule
+
+        def schedule(sim_time, workload, worker_pools):
+            pls = orig_schedule(sim_time, workload, worker_pools)
+            mon.clockwork_oracle(sim_time, list(pls))
+            return pls
+
+        W.scheduler.schedule = schedule
     nonterm = None
     stopped = False
     try:
@@ -718,6 +815,10 @@ def end_oracles(W, mon):
         c06_end(W, mon)
     if "C07" in mon.on:
         c07_end(W, mon)
+    if "C12" in mon.on:
+        for tn, t in W.tasks.items():
+            if t.state == TaskState.COMPLETED:
+                mon.req("C12", "completed-by-deadline", t.completion_time <= t.deadline, tn)
 
 
 def c06_end(W, mon):
